@@ -15,7 +15,7 @@ From Coq Require Import String Ascii.
 From Coq Require Import List NArith ZArith QArith Bool Arith.
 Import ListNotations.
 
-Definition str := list N.
+Notation str := (list N) (only parsing).
 
 (* ---- strings ---------------------------------------------------------------------------------- *)
 
